@@ -201,7 +201,14 @@ pub fn record(mode: &str, seed: u64, n: usize, out: &mut Out) {
                 let m = gen::message(&mut r, &MsgOpts { storage: None, big, max_args });
                 let sh = m.storage_header.is_some();
                 let b = m.as_bytes();
-                let sfx = suffixes(&mut r, sh);
+                let mut sfx = suffixes(&mut r, sh);
+                if i % 40 == 7 {
+                    // trailing data that brings the buffer to a multiple of 64 KiB (+-1) and beyond
+                    let o = if sh { 16 } else { 0 };
+                    for total in [65535usize, 65536, 65537, 65536 + o, 65536 + o + 1, 2 * 65536 + o, 2 * 65536 + o + b.len() - 1 - o, 70000] {
+                        if total > b.len() { sfx.push(r.bytes(total - b.len())); }
+                    }
+                }
                 let res: Vec<J> = sfx.iter().map(|s| { let mut x = b.clone(); x.extend(s); out.calls += 1; parse_res(&x, None, sh, true) }).collect();
                 out.emit(json!({"op": "round", "m": proj::message(&m), "bytes": proj::bytes(&b), "sfx": sfx.iter().map(|s| proj::bytes(s)).collect::<Vec<_>>(), "res": res}), b.len() > 4);
             }
@@ -258,6 +265,36 @@ pub fn record(mode: &str, seed: u64, n: usize, out: &mut Out) {
                     let types: Vec<TypeInfo> = (0..nt).map(|_| TypeInfo { kind: gen::kind(&mut r), coding: gen::coding(&mut r), has_variable_info: r.coin(), has_trace_info: r.coin() }).collect();
                     let cut = r.below(x.len() as u64 + 1) as usize;
                     out.emit(nopanic(construct_event(r.coin(), &types, &x[..cut.min(64)])), nt > 0);
+                }
+                // construct_arguments at its own guards: the exact payload of a type list cut at every position,
+                // and every length prefix off by -1 .. +3
+                let be = r.coin();
+                let nt = 1 + r.below(4) as usize;
+                let types: Vec<TypeInfo> = (0..nt).map(|_| TypeInfo { kind: gen::kind(&mut r), coding: gen::coding(&mut r), has_variable_info: r.coin(), has_trace_info: r.coin() }).collect();
+                let data = exact_payload(&mut r, &types, be);
+                for cut in 0..=data.len().min(48) {
+                    out.calls += 1;
+                    out.emit(nopanic(construct_event(be, &types, &data[..cut])), true);
+                }
+                let mut p = 0usize;
+                for t in &types {
+                    match t.kind {
+                        TypeInfoKind::StringType | TypeInfoKind::Raw => {
+                            if p + 2 > data.len() { break; }
+                            let l = if be { u16::from_be_bytes([data[p], data[p + 1]]) } else { u16::from_le_bytes([data[p], data[p + 1]]) };
+                            for d in [-1i32, 1, 2, 3, 255, 65535 - l as i32] {
+                                let nl = (l as i32 + d).clamp(0, 65535) as u16;
+                                let mut x = data.clone();
+                                let bytes = if be { nl.to_be_bytes() } else { nl.to_le_bytes() };
+                                x[p] = bytes[0]; x[p + 1] = bytes[1];
+                                out.calls += 1;
+                                out.emit(nopanic(construct_event(be, &types, &x)), true);
+                            }
+                            p += 2 + l as usize;
+                        }
+                        TypeInfoKind::Bool => p += 1,
+                        _ => p += t.type_width() / 8,
+                    }
                 }
             }
         }
@@ -408,26 +445,7 @@ pub fn record(mode: &str, seed: u64, n: usize, out: &mut Out) {
                     if !with_fp && matches!(k, TypeInfoKind::SignedFixedPoint(_) | TypeInfoKind::UnsignedFixedPoint(_)) { continue; }
                     break TypeInfo { kind: k, coding: gen::coding(&mut r), has_variable_info: r.coin(), has_trace_info: r.coin() };
                 }).collect();
-                // exact payload for these types
-                let mut data = vec![];
-                for t in &types {
-                    match &t.kind {
-                        TypeInfoKind::StringType => {
-                            let s = if r.one_in(6) { let k = r.below(5) as usize; r.bytes(k) } else { let mut s = r.text(6).into_bytes(); if r.one_in(4) { s.push(0); } s };
-                            let l = s.len() as u16;
-                            data.extend(if be { l.to_be_bytes() } else { l.to_le_bytes() });
-                            data.extend(s);
-                        }
-                        TypeInfoKind::Raw => {
-                            let k = r.below(6) as usize;
-                            let l = k as u16;
-                            data.extend(if be { l.to_be_bytes() } else { l.to_le_bytes() });
-                            data.extend(r.bytes(k));
-                        }
-                        TypeInfoKind::Bool => data.push(r.next() as u8),
-                        k => { let w = TypeInfo { kind: k.clone(), coding: StringCoding::ASCII, has_variable_info: false, has_trace_info: false }.type_width() / 8; data.extend(r.bytes(w)); }
-                    }
-                }
+                let data = exact_payload(&mut r, &types, be);
                 out.calls += 1;
                 out.emit(construct_event(be, &types, &data), nt > 0);
                 match r.below(4) {
@@ -477,6 +495,29 @@ pub fn record(mode: &str, seed: u64, n: usize, out: &mut Out) {
     }
 }
 
+/// a payload that holds exactly one field per signal type
+fn exact_payload(r: &mut Rng, types: &[TypeInfo], be: bool) -> Vec<u8> {
+    let mut data = vec![];
+    for t in types {
+        match &t.kind {
+            TypeInfoKind::StringType => {
+                let s = if r.one_in(6) { let k = r.below(5) as usize; r.bytes(k) } else { let mut s = r.text(6).into_bytes(); if r.one_in(4) { s.push(0); } s };
+                let l = s.len() as u16;
+                data.extend(if be { l.to_be_bytes() } else { l.to_le_bytes() });
+                data.extend(s);
+            }
+            TypeInfoKind::Raw => {
+                let k = r.below(6) as usize;
+                let l = k as u16;
+                data.extend(if be { l.to_be_bytes() } else { l.to_le_bytes() });
+                data.extend(r.bytes(k));
+            }
+            TypeInfoKind::Bool => data.push(r.next() as u8),
+            k => { let w = TypeInfo { kind: k.clone(), coding: StringCoding::ASCII, has_variable_info: false, has_trace_info: false }.type_width() / 8; data.extend(r.bytes(w)); }
+        }
+    }
+    data
+}
 /// junk that may contain partial patterns; the specification decides whether it contains the pattern
 fn junk_bytes(r: &mut Rng) -> Vec<u8> {
     let n = r.below(14) as usize;
